@@ -525,6 +525,39 @@ Proof.
   rewrite (fold64_eq cap fs init (inv_init cap)); [reflexivity|cbn [init bytes_read]; lia].
 Qed.
 
+(* the stream depends on the data frames only through their lengths: the
+   length-level run simulates the byte-level run step by step *)
+Definition abs_st (s : sst) : lst :=
+  LSt (ph s) (bytes_read s) (map blen (out_rev s)) (polled s).
+
+Lemma lstep_sim cap s f : lstep cap (abs_st s) (lframe_of f) = abs_st (step cap s f).
+Proof.
+  destruct s as [p br o q]. unfold lstep, step, step_with, abs_st.
+  cbn [ph bytes_read out_rev polled lph lbytes_read lout_rev lpolled].
+  destruct p; [|destruct f; reflexivity|reflexivity].
+  destruct f as [bs| |]; cbn [lframe_of]; [|reflexivity|reflexivity].
+  destruct (cap <? br + blen bs); reflexivity.
+Qed.
+
+Lemma lfold_sim cap fs s :
+  fold_left (lstep cap) (map lframe_of fs) (abs_st s) = abs_st (fold_left (step cap) fs s).
+Proof.
+  revert s; induction fs as [|f fs IH]; intros s; [reflexivity|].
+  cbn [map fold_left]. rewrite lstep_sim. apply IH.
+Qed.
+
+Lemma lrun_sim cap fs : lrun cap (map lframe_of fs) = abs_st (run cap fs).
+Proof. unfold lrun, run. change linit with (abs_st init). apply lfold_sim. Qed.
+
+Lemma stream_len_abs cap fs :
+  stream_len cap (map lframe_of fs) = (map blen (fst (stream cap fs)), snd (stream cap fs)) /\
+  frames_polled_len cap (map lframe_of fs) = frames_polled cap fs.
+Proof.
+  unfold stream_len, frames_polled_len, stream, frames_polled. rewrite lrun_sim.
+  cbn [fst snd abs_st lout_rev lpolled]. split; [|reflexivity].
+  f_equal. unfold yielded, rev'. rewrite <- !rev_alt. symmetry. apply map_rev.
+Qed.
+
 (* ------------------------------------------------------------------ *)
 (* 4. the extractors *)
 
